@@ -14,7 +14,7 @@ import gen
 from gen import F, enc_label, dec_label, LabelTable, coq_obs
 import w_c17_py as PYK
 
-KIND_WEIGHTS = [('gate', 30), ('comb', 14), ('mwis', 14), ('mult', 2), ('multwire', 2), ('qap', 6), ('magic', 4), ('sat', 8),
+KIND_WEIGHTS = [('gate', 30), ('comb', 14), ('mwis', 14), ('mult', 2), ('multwire', 2), ('qap', 6), ('magic', 4), ('sat', 8), ('qknap', 6),
                 ('knapsack', 10), ('binpacking', 8), ('multiknapsack', 8), ('random', 14)]
 STRENGTHS = ['1/2', '1', '2', '3']
 GATES = {'and': ('and_gate', 3, 'GAnd'), 'or': ('or_gate', 3, 'GOr'), 'xor': ('xor_gate', 4, 'GXor'),
@@ -60,6 +60,21 @@ def gen_case(rng, tier):
         if rng.random() < 0.3:
             D = [[str(Fraction(v, 2)) for v in r] for r in D]
         return {"kind": kind, "n": n, "D": D, "F": F, "form": rng.choice(['list', 'array'])}
+    if kind == 'qknap':
+        multi = rng.random() < 0.5
+        n = rng.randint(1, 3 if multi else 4)
+        b = rng.randint(1, 2)
+        den = rng.choice([1, 1, 2])
+        vals = [str(Fraction(rng.randint(0, 9), den)) for _ in range(n)]
+        wts = [str(Fraction(rng.randint(0, 9), den)) for _ in range(n)]
+        P = [[0] * n for _ in range(n)]
+        for i in range(n):
+            for j in range(i + 1):
+                P[i][j] = P[j][i] = rng.randint(-4, 9)
+        tot = sum(Fraction(w) for w in wts)
+        caps = [str(Fraction(rng.randint(0, int(tot) + 2))) for _ in range(b)]
+        return {"kind": kind, "multi": multi, "values": vals, "weights": wts, "profits": P,
+                "capacities": caps if multi else caps[:1], "form": rng.choice(['list', 'array'])}
     if kind == 'sat':
         fn = rng.choice(['nae3sat', '2in4sat', 'kmcsat'])
         k = {'nae3sat': 3, '2in4sat': 4}.get(fn) or rng.randint(1, 4)
@@ -402,6 +417,55 @@ def cqm_term(c, last):
 
 QAP_ASYMMETRIC = False
 
+def run_qknap(c):
+    multi = c["multi"]
+    vals = [F(v) for v in c["values"]]
+    wts = [F(v) for v in c["weights"]]
+    P = [[F(v) for v in r] for r in c["profits"]]
+    caps = [F(v) for v in c["capacities"]]
+    n, b = len(vals), len(caps)
+    feats = {"kind": "qknap", "multi": multi}
+    conv = (lambda M: np.array([[float(v) for v in r] for r in M])) if c["form"] == 'array' else \
+           (lambda M: [[float(v) for v in r] for r in M])
+    fl = lambda xs: [float(v) for v in xs]
+    if multi:
+        cqm = DG.quadratic_multi_knapsack(fl(vals), fl(wts), conv(P), fl(caps))
+        order = [f"x_{i}_{j}" for i in range(n) for j in range(b)]
+    else:
+        cqm = DG.quadratic_knapsack(fl(vals), fl(wts), conv(P), float(caps[0]))
+        order = [f"x_{i}" for i in range(n)]
+    if set(cqm.variables) != set(order) or any(cqm.vartype(v) is not dimod.BINARY for v in cqm.variables):
+        return {"coq": None, "features": feats, "py_fail": f"variables {list(cqm.variables)!r}, expected binary {order!r}"}
+    T = LabelTable(order)
+    N = len(order)
+    rows = all_rows(N) if N <= 8 else None
+    py_fail = None
+    crow = []
+    for r in rows:
+        sample = dict(zip(order, r))
+        feas = bool(cqm.check_feasible(sample))
+        en = F(cqm.objective.energy(sample))
+        # documented: minus the value placed, minus the profit of every pair of items placed together;
+        # each knapsack within its capacity, each item in at most one knapsack
+        if multi:
+            X = [[r[i * b + j] for j in range(b)] for i in range(n)]
+            want = -sum(vals[i] * X[i][j] for i in range(n) for j in range(b)) \
+                   - sum(P[i][k] * X[i][j] * X[k][j] for i in range(n) for k in range(i + 1, n) for j in range(b))
+            ok = all(sum(X[i]) <= 1 for i in range(n)) and all(sum(wts[i] * X[i][j] for i in range(n)) <= caps[j] for j in range(b))
+        else:
+            want = -sum(vals[i] * r[i] for i in range(n)) - sum(P[i][k] * r[i] * r[k] for i in range(n) for k in range(i + 1, n))
+            ok = sum(wts[i] * r[i] for i in range(n)) <= caps[0]
+        if (en != want or feas != ok) and py_fail is None:
+            py_fail = f"assignment {sample}: objective {en} (documented {want}), feasible {feas} (documented {ok})"
+        crow.append(f"({clist([cbool(x) for x in r])}, {cbool(feas)}, {cq(en)})")
+    ccons = [f"({coq_obs(gen.observe(con.lhs), T)}, {SENSE[con.sense.value]}, {cq(F(con.rhs))})" for con in cqm.constraints.values()]
+    mat = clist([clist([cq(v) for v in r]) for r in P])
+    head = (f"CQMk {clist(map(cq, vals))} {clist(map(cq, wts))} {mat} {clist(map(cq, caps))}" if multi else
+            f"CQKnap {clist(map(cq, vals))} {clist(map(cq, wts))} {mat} {cq(caps[0])}")
+    coq = f"({head} {coq_obs(gen.observe(cqm.objective), T)} {clist(ccons)} {clist(crow)})"
+    return {"coq": coq, "py_fail": py_fail, "features": feats, "nontrivial": n > 1}
+
+
 def run_sat(c):
     k, n, m = c["k"], c["n"], c["num_clauses"]
     plant = bool(c["plant"])
@@ -446,7 +510,8 @@ def run_sat(c):
     arr = 2 * np.array(rows, dtype=np.int8) - 1
     en = bqm.energies((arr, want))
     ccl = clist([clist([cpair(cnat(v), cz(sg)) for v, sg in cl]) for cl in clauses])
-    coq = f"(CSat {cnat(k)} {cbool(plant)} {cnat(n)} {ccl} {coq_obs(gen.observe(bqm), T)} {crows(rows, en)})"
+    wrapper = {'nae3sat': 1, '2in4sat': 2}.get(c["fn"], 0)
+    coq = f"(CSat {cnat(wrapper)} {cnat(k)} {cbool(plant)} {cnat(n)} {ccl} {coq_obs(gen.observe(bqm), T)} {crows(rows, en)})"
     return {"coq": coq, "py_fail": py_fail, "features": feats, "nontrivial": m > 0 and k > 1,
             "observed": {"clauses": clauses}}
 
@@ -546,6 +611,8 @@ def run_case(c):
         return run_qap(c)
     if kind == 'magic':
         return run_magic(c)
+    if kind == 'qknap':
+        return run_qknap(c)
     if kind == 'sat':
         return run_sat(c)
     if kind in PYK.KINDS:
